@@ -37,20 +37,22 @@ import (
 func TestMain(m *testing.M) {
 	vk.Main(m, vk.Config{
 		Property: "C02",
-		Rule: "rapid-generated programs on a real store whose every log goes through the fsim storage seam (yield hook + fault injection): generated configuration (synced with 1 ms sync frequency / unsynced, embedded values, " +
-			"prealloc, header version 0/1, MaxIOConcurrency 1-3, file sizes 256 B-1 MiB forcing chunk rotation inside tx records, tx-log cache 1-1000, MaxActiveTransactions 4-1000) and steps: bursts of 1-6 concurrent committers " +
-			"(write-only Commit/AsyncCommit, CommitWith callbacks, read-write txs, preconditions that pass or fail, txs cancelled before commit, contexts cancelled during commit, commits whose n-th storage operation fails), " +
-			"maintenance running inside the bursts (FlushIndexes, CompactIndexes, TruncateUptoTx, Sync), close/reopen with changed options, and in external-commit-allowance mode AllowCommitUpto / DiscardPrecommittedTxsSince " +
-			"(also of committed ids, which must be refused) followed by new commits under the same ids, replication of the whole history into a second store. The ledger of acknowledged transactions is compared with " +
-			"ReadTx/ReadTxHeader/ExportTx/ReadValue/TxReader/CommittedAlh after every step and continuously from a checker goroutine. " +
-			"Non-trivial: >= 2 committers overlapped in one burst AND at least one of {reopen, tx log rotated over several chunks, discard of precommitted txs, injected storage failure}; distinct by hash of (configuration, step sequence with outcomes).",
+		Rule: "rapid-generated programs on a real store whose every log goes through the fsim storage seam (yield/sleep hook before every storage operation of the commit path, fault injection): generated configuration " +
+			"(synced with 1 ms sync frequency / unsynced, embedded values, prealloc, header version 0/1, MaxIOConcurrency 1-3, file sizes 256 B-1 MiB forcing chunk rotation inside tx records, tx-log cache 1-1000, " +
+			"MaxActiveTransactions 4-1000) and steps: bursts of 1-6 concurrent committers (write-only Commit/AsyncCommit, CommitWith callbacks, read-write txs, preconditions that pass or fail, txs cancelled before commit, " +
+			"contexts cancelled during commit, commits whose n-th storage operation fails) with FlushIndexes/CompactIndexes/TruncateUptoTx/Sync running inside the bursts, close/reopen with changed options; in " +
+			"external-commit-allowance mode AllowCommitUpto / DiscardPrecommittedTxsSince (also of committed ids, which must be refused) followed by new commits under the same ids; a replica store following one primary, or " +
+			"switching to a second primary that forked from the first, through concurrent ReplicateTx calls, allowances, discards and restarts; replication of a whole history into a second store. The ledger of " +
+			"acknowledged transactions (request content + returned header) is compared with ReadTx/ReadTxHeader/ExportTx/ReadValue/TxReader/CommittedAlh/DualProof after every step and continuously from a checker goroutine. " +
+			"Non-trivial: >= 2 committers (or ReplicateTx calls) overlapped in one burst AND at least one of {reopen in the middle of the history, tx log rotated over several chunks, discard of precommitted txs, " +
+			"injected storage failure that fired}; distinct by hash of (configuration, step sequence with per-call outcomes).",
 		Assumptions: []string{
 			"a commit call that returns an error after an injected storage fault, a cancelled context, a closed store, ErrBufferIsFull or a waiters-limit error has an unknown outcome (like a timeout): its transaction may appear later, exactly once and exactly with the requested content; a commit refused for a failed precondition, a read conflict, a cancelled OngoingTx or the MaxActiveTransactions limit must never appear",
-			"after an injected storage fault nothing is asserted about the liveness of later commits until the store was closed and reopened (reopen must succeed); every other unexpected commit error is reported",
-			"DiscardPrecommittedTxsSince is called only after the commit calls waiting on the discarded ids were cancelled (what the replicator does); read-write transactions and preconditions are generated only without external commit allowance (they wait for indexing of precommitted transactions while holding the commit mutex)",
-			"values of transactions below the largest TruncateUptoTx argument may be unreadable (never different); ExportTx is not called for them (truncated exports are C14's business)",
-			"expired entries are not generated (ReadValue refuses them by wall clock); keys are distinct inside one transaction",
-			"ReplicateTx is exercised only as a sequential copy of the whole committed history into a second store at the end of a case (concurrent replication protocols are C07's business)",
+			"after an injected storage fault nothing is asserted about the liveness of later commits until the store was closed and reopened (reopen must succeed; commit calls of such a burst are abandoned after 3 s); every other unexpected commit error is reported",
+			"DiscardPrecommittedTxsSince is called only after the commit calls waiting on the discarded ids were cancelled (what the replicator does); read-write transactions and preconditions are generated only without external commit allowance, and not in the first burst after an unsynced store was reopened with precommitted transactions in its log (such a commit waits for ever, holding the commit mutex, for the indexing of transactions only it could commit: liveness, not this property)",
+			"values of transactions below the largest TruncateUptoTx argument may be unreadable (never different); ExportTx is not called for them (truncated exports are C14's business). TruncateUptoTx runs concurrently with committers only when there is one value log: with several it keeps the value logs it already fetched while waiting for the next and releaseVLog wakes one arbitrary waiter, so the wake-up can be lost for good (hang observed; liveness, C14)",
+			"expired entries are not generated (ReadValue refuses them by wall clock); keys are distinct inside one transaction; a read-write tx that fails to stage a write (Set returns 'ts is greater than current ts' under concurrency) is not submitted",
+			"on a replica, after DiscardPrecommittedTxsSince a ReplicateTx call that is not the first of its burst may be refused (unexistent data / wrong order / invalid blRoot) instead of waiting for its predecessor, because the in-memory precommit watermark is not taken back; it is retried",
 			"schedule coverage is whatever the Go scheduler plus yields/sleeps at every storage operation of the commit path produce; pre-emptions between two non-I/O instructions are hit only by chance",
 		},
 		Probes: []vk.Probe{
@@ -1112,6 +1114,12 @@ func (e *env) burst(rt *rapid.T) {
 					continue
 				}
 				m.arg = uint64(rapid.IntRange(1, int(e.lastN)).Draw(rt, "truncUpto"))
+				// published before the burst starts: the checker must never export a transaction the truncation may already cover
+				e.mu.Lock()
+				if m.arg > e.truncUpto {
+					e.truncUpto = m.arg
+				}
+				e.mu.Unlock()
 			}
 			ms = append(ms, m)
 			desc += "+" + m.kind
@@ -1119,7 +1127,13 @@ func (e *env) burst(rt *rapid.T) {
 	}
 	// injected storage fault
 	var f *faultSpec
-	if !ext && rapid.IntRange(0, 4).Draw(rt, "fault") == 0 {
+	injectOK := true
+	if e.lastN == 0 && vk.Excluded("K02b-first-tx-stale-blroot-after-discard") {
+		// known finding K02b (second trigger): a restart that finds only an unfinished record of tx 1 in the tx log parses it into a
+		// pooled tx holder; the next tx 1 inherits that holder's BlRoot. No fault is injected before the first transaction is committed.
+		injectOK = false
+	}
+	if !ext && rapid.IntRange(0, 4).Draw(rt, "fault") == 0 && (injectOK || !countK02b()) {
 		f = &faultSpec{logClass: rapid.SampledFrom([]string{"tx", "tx", "commit", "commit", "val", "aht"}).Draw(rt, "faultLog")}
 		if e.cfg.Embedded && f.logClass == "val" {
 			f.logClass = "tx"
@@ -1170,11 +1184,6 @@ func (e *env) burst(rt *rapid.T) {
 			case "sync":
 				e.st.Sync()
 			case "truncate":
-				e.mu.Lock()
-				if m.arg > e.truncUpto {
-					e.truncUpto = m.arg
-				}
-				e.mu.Unlock()
 				if err := e.st.TruncateUptoTx(m.arg); err == nil {
 					e.mu.Lock()
 					e.truncs++
@@ -1421,7 +1430,34 @@ func (e *env) discard(rt *rapid.T) {
 	e.checkAll(fmt.Sprintf("after DiscardPrecommittedTxsSince(%d) (committed %d, precommitted %d)", since, n, p), false)
 }
 
+func countK02b() bool {
+	vk.CountExcluded("K02b-first-tx-stale-blroot-after-discard")
+	return true
+}
+
 func (e *env) reopen(rt *rapid.T, afterFault bool) {
+	if e.cfg.ExternalAllow && e.st.LastCommittedTxID() == 0 && e.st.LastPrecommittedTxID() > 0 && vk.Excluded("K02b-first-tx-stale-blroot-after-discard") {
+		// known finding K02b (second trigger): precommitted transactions that a restart cannot reload (embedded values) leave their
+		// bytes in a pooled tx holder and the next tx 1 inherits a stale BlRoot: tx 1 is committed before the restart
+		countK02b()
+		if err := e.st.AllowCommitUpto(1); err != nil {
+			e.failf("AllowCommitUpto(1): %v", err)
+		}
+		ctx, cancel := context.WithTimeout(context.Background(), waitBound)
+		err := e.st.WaitForTx(ctx, 1, false)
+		cancel()
+		if err != nil {
+			e.failf("AllowCommitUpto(1): not committed within %v: %v", waitBound, err)
+		}
+		if a := e.pending[1]; a != nil {
+			select {
+			case <-a.done:
+			case <-time.After(waitBound):
+				e.failf("tx 1 is committed but its commit call did not return within %v", waitBound)
+			}
+			delete(e.pending, 1)
+		}
+	}
 	closeFirst := rapid.Bool().Draw(rt, "closeBeforeCancel")
 	if len(e.pending) > 0 && closeFirst {
 		// the store is closed under the waiting commit calls
@@ -1532,8 +1568,11 @@ func runCase(rt *rapid.T, c *vk.Case, ext bool) {
 			a.cancel()
 		}
 	}()
-	maxTx := 60
-	steps := rapid.IntRange(3, 14).Draw(rt, "steps")
+	maxTx, maxSteps := 60, 14
+	if vk.Thorough() {
+		maxTx, maxSteps = 150, 24
+	}
+	steps := rapid.IntRange(3, maxSteps).Draw(rt, "steps")
 	for s := 0; s < steps; s++ {
 		kinds := []string{"burst", "burst", "burst", "burst", "reopen", "maint"}
 		if ext {
@@ -1667,13 +1706,13 @@ func runCase(rt *rapid.T, c *vk.Case, ext bool) {
 }
 
 func TestHistoryImmutable(t *testing.T) {
-	vk.Check(t, 480, 24000, func(rt *rapid.T, c *vk.Case) {
+	vk.Check(t, 400, 10000, func(rt *rapid.T, c *vk.Case) {
 		runCase(rt, c, false)
 	})
 }
 
 func TestHistoryImmutableExternalAllowance(t *testing.T) {
-	vk.Check(t, 320, 16000, func(rt *rapid.T, c *vk.Case) {
+	vk.Check(t, 280, 6000, func(rt *rapid.T, c *vk.Case) {
 		runCase(rt, c, true)
 	})
 }
